@@ -146,6 +146,10 @@ class AliasClass:
         """e is a pointer range test of the parameter (or its address) against the receiver's storage:
         comparisons (<, <=, >, >=) joined by && / || whose operands mention the parameter and storage-derived pointers."""
         e = strip(e)
+        while e.get('k') == 'paren':
+            e = strip(e['e'])
+        if e.get('k') == 'un' and e.get('op') == '!':
+            return self.is_range_test(f, e['e'], pid)       # `!(p < first)` is `p >= first`
         if e.get('k') == 'bin' and e.get('op') in ('&&', '||'):
             return self.is_range_test(f, e['x'], pid) and self.is_range_test(f, e['y'], pid)
         if e.get('k') == 'bin' and e.get('op') in ('>=', '<=', '<', '>'):
@@ -317,10 +321,31 @@ class AliasClass:
         """Fixpoint over the members; returns the summaries {(pq, param index)} found unsafe."""
         unsafe = dict(extern_summaries or {})
         results = {}
+        # construction helpers: non-public members that only constructors (or other construction helpers) call work on a receiver
+        # that has no storage yet - nothing the argument could point into - exactly like the constructors themselves
+        callers = {}
+        for f in self.members:
+            if not f.get('body'):
+                continue
+            for e in fn_exprs(f):
+                if e.get('k') == 'call' and e.get('clsp') == self.cls and (e.get('obj') is None or is_this_obj(e)):
+                    callers.setdefault(e.get('pq'), set()).add(f.get('pq') if f.get('kind') != 'ctor' else '<ctor>')
+        ctor_only = set()
+        grew = True
+        while grew:
+            grew = False
+            for f in self.members:
+                pq_ = f.get('pq')
+                if f.get('kind') in ('ctor', 'dtor') or pq_ in ctor_only or f.get('acc') not in ('private', 'protected'):
+                    continue
+                cs = callers.get(pq_)
+                if cs and all(c_ == '<ctor>' or c_ in ctor_only for c_ in cs):
+                    ctor_only.add(pq_)
+                    grew = True
         for rnd in range(4):
             changed = False
             for f in self.members:
-                if f.get('kind') == 'ctor' or f.get('kind') == 'dtor' or not f.get('body'):
+                if f.get('kind') == 'ctor' or f.get('kind') == 'dtor' or not f.get('body') or f.get('pq') in ctor_only:
                     continue
                 for j, p in enumerate(f['params']):
                     if not self.risk(f, p):
